@@ -499,3 +499,89 @@ def twins_case(r, cid):
     L += first[:3]                     # asked twice (the first round may have moved the lazy states)
     L.append("end")
     return "\n".join(L) + "\n"
+
+
+# ---------------------------------------------------------------------------------------------------------------
+# fifth stream: generalized affine image / preimage with an EXPRESSION on the left (lhs = rhs mod m), every shape of
+# overlap between the variables of the two sides (none; only the highest variable of lhs; only a lower one; all),
+# constant lhs, zero / non-zero modulus, receivers in every lazy state
+# ---------------------------------------------------------------------------------------------------------------
+def lhs_case(r, cid):
+    global SPARSE, SUPPORT
+    SPARSE, SUPPORT = False, None
+    n = r.choice([1, 2, 2, 3, 3, 4])
+    L = ["case %s" % cid, new_obj(r, 0, n)]
+    if r.random() < 0.3:                         # non-empty receiver with a few generators (most shapes of interest)
+        G = [_gen_tuple(r, n, "p")] + [_gen_tuple(r, n, r.choice("pqql")) for _ in range(r.randint(0, 3))]
+        L[-1] = "new 0 dim %d gens %d %s" % (n, len(G), " ".join(map(_gen_str, G)))
+    L += state_driver(r, 0, n)
+    for _ in range(r.randint(1, 2)):
+        k = r.randint(0, min(2, n)) if r.random() < 0.9 else 0
+        lv = sorted(r.sample(range(n), k))
+        la = [0] * n
+        for v in lv:
+            la[v] = r.choice([1, 1, -1, 2, 3, -2])
+        ra = [0] * n
+        shape = r.choice(["none", "highest", "lower", "all", "random"])
+        others = [i for i in range(n) if i not in lv]
+        if shape == "random":
+            ra = [r.choice([0, 0, 1, -1, 2, -2]) for _ in range(n)]
+        else:
+            for i in others:
+                if r.random() < 0.5:
+                    ra[i] = r.choice([1, -1, 2, 3])
+            if lv:
+                if shape == "highest":
+                    ra[lv[-1]] = r.choice([1, 1, -1, 2])
+                elif shape == "lower":
+                    ra[lv[0]] = r.choice([1, 1, -1, 2])
+                    if len(lv) > 1:
+                        ra[lv[-1]] = 0
+                elif shape == "all":
+                    for v in lv:
+                        ra[v] = r.choice([1, -1, 2, 3])
+        rel = r.choice(["eq"] * 8 + ["ge", "lt"])
+        # (rel != eq with a non-zero modulus is a rejected call; whether it is rejected on an empty receiver too is
+        #  C14's business, not generated here)
+        m = r.choice([0, 0, 1, 2, 3, -2, 4]) if rel == "eq" else 0
+        op = r.choice(["gimagel", "gpreimagel"])
+        L.append("%s 0 %s %d %d %s %d %s" % (op, rel, m, r.randint(-3, 3), " ".join(map(str, la)),
+                                             r.randint(-3, 3), " ".join(map(str, ra))))
+        L.append("obs 0 %s" % r.choice(["cgs", "mcgs", "gens", "mgens"]))
+    L.append("q 0 %s" % r.choice(["is_empty", "is_universe", "is_discrete", "is_bounded"]))
+    L.append("end")
+    return "\n".join(L) + "\n"
+
+
+# ---------------------------------------------------------------------------------------------------------------
+# sixth stream: assignment / copy / swap INTO A LIVE TARGET of the same dimension whose own descriptions have been
+# minimized in a different shape, from a source in every lazy state; then the description that was NOT up to date in
+# the source is requested from the target (stale per-dimension kinds, stale flags)
+# ---------------------------------------------------------------------------------------------------------------
+def assign_case(r, cid):
+    global SPARSE, SUPPORT
+    SPARSE, SUPPORT = False, None
+    n = r.choice([1, 2, 2, 3, 3, 4])
+    L = ["case %s" % cid]
+    for o in (0, 1):
+        if r.random() < 0.6:
+            G = [_gen_tuple(r, n, "p")] + [_gen_tuple(r, n, r.choice("pqqll")) for _ in range(r.randint(0, 3))]
+            L.append("new %d dim %d gens %d %s" % (o, n, len(G), " ".join(map(_gen_str, G))))
+        else:
+            L.append(new_obj(r, o, n))
+    # the target: both descriptions minimized (or whatever the driver leaves)
+    L += r.choice([["obs 1 mcgs", "obs 1 mgens"], ["obs 1 mgens", "obs 1 mcgs"], ["obs 1 mgens"], ["obs 1 mcgs"]] + [state_driver(r, 1, n)])
+    # the source: one description only
+    src = r.choice([["obs 0 mgens"], ["obs 0 mcgs"], ["obs 0 gens"], ["obs 0 cgs"], [],
+                    ["embed 0 1", "obs 0 mgens", "rmhigher 0 %d" % n], ["embed 0 1", "obs 0 mcgs", "rmhigher 0 %d" % n],
+                    ["addgen 0 %s" % gen(r, n), "obs 0 mgens"], ["addcg 0 %s" % cg(r, n), "obs 0 mcgs"]]
+                   + [state_driver(r, 0, n)])
+    L += src
+    L.append(r.choice(["assign 1 0", "assign 1 0", "assign 1 0", "swap 1 0", "copy 1 0"]))
+    after = [["obs 1 cgs"], ["obs 1 mcgs"], ["obs 1 gens"], ["obs 1 mgens"], ["q 1 is_universe"], ["q 1 is_discrete"],
+             ["q2 0 1 equals"], ["q2 1 0 contains"], ["rel 1 %s" % cg(r, n)], ["relgen 1 %s" % gen(r, n)],
+             ["addcg 1 %s" % cg(r, n), "obs 1 mgens"], ["addgen 1 %s" % gen(r, n), "obs 1 mcgs"], ["inters 1 0"], ["join 1 0"]]
+    for _ in range(r.randint(2, 4)):
+        L += r.choice(after)
+    L += ["obs 1 mcgs", "obs 1 mgens", "obs 0 mcgs", "end"]
+    return "\n".join(L) + "\n"
